@@ -103,7 +103,9 @@ def decode(M, body, boundary, cuts, max_parts=None, driver="drain"):
       drain      one piece, events until NeedData, next piece (what MultiPartParser does)
       pairs      two pieces handed over back to back before any event is asked for
       lazy       one event per piece only (a driver that polls), everything drained at the end
-      scratch    pieces handed over in one bytearray the caller re-uses for every read (recv_into style)"""
+      scratch    pieces handed over in one bytearray the caller re-uses for every read (recv_into style)
+      edits      like drain; the consumer edits the headers object of every part it is handed (they are its own) - what it
+                 was handed before the edit is the result, and later decodes of the same bytes are unaffected"""
     d = M.MultipartDecoder(boundary) if max_parts is None else M.MultipartDecoder(boundary, max_parts=max_parts)
     parts = []
     cur = None
@@ -138,9 +140,15 @@ def decode(M, body, boundary, cuts, max_parts=None, driver="drain"):
                 elif isinstance(e, M.File):
                     cur = ["file", e.name, e.filename, list(e.headers), b""]
                     parts.append(cur)
+                    if driver == "edits":
+                        e.headers["Content-Type"] = "edited/by-the-consumer"
+                        e.headers.add("X-Seen", "1")
                 elif isinstance(e, M.Field):
                     cur = ["field", e.name, None, list(e.headers), b""]
                     parts.append(cur)
+                    if driver == "edits":
+                        e.headers.add("X-Seen", "1")
+                        e.headers.pop("Content-Disposition", None)
                 elif isinstance(e, M.Epilogue):
                     return parts
         return ("EXC", "NoEpilogue", "decoder never produced Epilogue")
@@ -291,6 +299,43 @@ def corpus(rng, cfg, index, of):
         yield parts, bnd, nl_name, pre, epi, pad
 
 
+def decoders_built_on_eight_threads(M, rec):
+    """Schedule: eight requests with boundaries of their own arrive at once; every thread builds its decoders (two in a
+    row per boundary, as a retried request would) while the others build theirs.  Each body decodes to its own parts, in
+    one piece and byte by byte."""
+    import sys
+    import threading
+
+    old = sys.getswitchinterval()
+    sys.setswitchinterval(1e-5)
+    errs = []
+    try:
+        def work(i):
+            for n in range(120):
+                bnd = b"bnd-%d-%d-" % (i, n) + bytes([97 + i]) * (n % 9)
+                body = b"--" + bnd + b"\r\nContent-Disposition: form-data; name=\"f%d\"\r\n\r\nvalue %d %d\r\n--" % (i, i, n) + bnd + b"--\r\n"
+                want = [["field", "f%d" % i, None, [("Content-Disposition", 'form-data; name="f%d"' % i)], b"value %d %d" % (i, n)]]
+                for cuts in ((), (), tuple(range(1, len(body)))):
+                    got = decode(M, body, bnd, cuts)
+                    if got != want:
+                        errs.append((i, n, cuts[:3], got))
+                        return
+
+        ths = [threading.Thread(target=work, args=(i,)) for i in range(8)]
+        for t in ths:
+            t.start()
+        for t in ths:
+            t.join()
+    finally:
+        sys.setswitchinterval(old)
+    rec.case()
+    rec.nontrivial(("decoders-on-eight-threads",))
+    rec.observe("decoders_built_on_eight_threads", 8 * 120 * 3)
+    if errs:
+        i, n, cuts, got = errs[0]
+        rec.violation("C01/decode-depends-on-what-other-threads-decode", f"thread {i}, request {n} (cuts {cuts}...): decoded {got!r}", {"part": "decoders-on-eight-threads"}, monitor="boundary-recorder")
+
+
 def run(shard, rec, rng):
     from werkzeug import formparser as FP
     from werkzeug.sansio import multipart as M
@@ -317,6 +362,9 @@ def run(shard, rec, rng):
         limited_memory_schedules(FP, rec, rng)
     if shard["index"] % 4 == 2:
         long_parts_in_many_pieces(FP, M, rec, rng)
+    if shard["index"] % 4 == 3:
+        with rec.guard({"part": "decoders-on-eight-threads"}, "C01"):
+            decoders_built_on_eight_threads(M, rec)
     for parts, bnd, nl_name, pre, epi, pad in corpus(rng, cfg, shard["index"], shard["of"]):
         built = G.build(parts, bnd, G.NLS[nl_name], pre, epi, pad=pad)
         if pad:
@@ -509,16 +557,16 @@ def check_body(M, FP, rec, rng, cfg, body, cls, bnd, expected, case_base):
     ok = one(())
     if not ok:
         return
-    DRIVERS = ("pairs", "lazy", "scratch")
+    DRIVERS = ("pairs", "lazy", "scratch", "edits")
     for i in range(1, n):
         one((i,))
-        one((i,), driver=DRIVERS[i % 3])
+        one((i,), driver=DRIVERS[i % 4])
     rec.observe("two_way_bodies")
     if n <= cfg["three_way_max"]:
         for j_, pair in enumerate(itertools.combinations(range(1, n), 2)):
             one(pair)
             if j_ % 5 == 0:
-                one(pair, driver=DRIVERS[(j_ // 5) % 3])
+                one(pair, driver=DRIVERS[(j_ // 5) % 4])
         rec.observe("three_way_exhaustive_bodies")
     elif n <= cfg["zone3_max"]:
         zone = [i for i in range(1, n) if cls[i - 1] in b"LD" or cls[i] in b"LD" or (cls[i - 1] != cls[i])]
